@@ -55,7 +55,7 @@ pub fn generate(input: MatchingInput) -> proc_macro2::TokenStream {
     let mut global_guards = vec![];
 
     if let Some((_, expr)) = input.guard {
-        global_guards.push(quote! { #expr });
+        global_guards.push(quote! { (#expr) });
     }
 
     let mut local_counter: usize = 0;
